@@ -354,7 +354,15 @@ class ConstFold:
             if isinstance(e.func, ast.Attribute) and e.func.attr in SAFE_STR_METHODS:
                 base = self.ev(e.func.value)
                 if isinstance(base, str):
-                    args = [self.ev(a) for a in e.args]
+                    args = []
+                    for a in e.args:
+                        if isinstance(a, ast.Starred):
+                            sv_ = self.ev(a.value)
+                            if not isinstance(sv_, (tuple, list)):
+                                raise AnalysisError("cannot fold *%s" % norm(a.value))
+                            args.extend(sv_)
+                        else:
+                            args.append(self.ev(a))
                     kw = {k.arg: self.ev(k.value) for k in e.keywords}
                     return getattr(base, e.func.attr)(*args, **kw)
             # an in-repo helper that just builds and returns a string / tuple:
